@@ -177,6 +177,27 @@ type Store struct {
 	// WrongSize makes ReceiveBlob acknowledge with size+1 (a misreporting replica).
 	WrongSize bool
 	NoRemove  bool
+	// EOFWithData makes the readers handed out by Fetch/SubFetch return io.EOF together with
+	// the last bytes (legal for an io.Reader and typical of network stores) instead of on an
+	// extra call.
+	EOFWithData bool
+}
+
+type dataEOFReader struct{ r *bytes.Reader }
+
+func (d dataEOFReader) Read(p []byte) (int, error) {
+	n, err := d.r.Read(p)
+	if err == nil && d.r.Len() == 0 {
+		err = io.EOF
+	}
+	return n, err
+}
+
+func (s *Store) reader(b []byte) io.ReadCloser {
+	if s.EOFWithData {
+		return io.NopCloser(dataEOFReader{bytes.NewReader(b)})
+	}
+	return io.NopCloser(bytes.NewReader(b))
 }
 
 func (s *Store) fail(op string) bool {
@@ -219,7 +240,7 @@ func (s *Store) Fetch(ctx context.Context, br blob.Ref) (io.ReadCloser, uint32, 
 	if i < 0 {
 		return nil, 0, os.ErrNotExist
 	}
-	return io.NopCloser(bytes.NewReader(s.Datas[i])), uint32(len(s.Datas[i])), nil
+	return s.reader(s.Datas[i]), uint32(len(s.Datas[i])), nil
 }
 
 func (s *Store) SubFetch(ctx context.Context, br blob.Ref, offset, length int64) (io.ReadCloser, error) {
@@ -242,7 +263,7 @@ func (s *Store) SubFetch(ctx context.Context, br blob.Ref, offset, length int64)
 	if length < end-offset {
 		end = offset + length
 	}
-	return io.NopCloser(bytes.NewReader(d[offset:end])), nil
+	return s.reader(d[offset:end]), nil
 }
 
 func (s *Store) ReceiveBlob(ctx context.Context, br blob.Ref, src io.Reader) (blob.SizedRef, error) {
